@@ -6,7 +6,7 @@ from __future__ import absolute_import
 
 from typing import Iterator, Optional, Tuple, Union
 
-from httoop.exceptions import Invalid, InvalidBody, InvalidHeader, InvalidLine, InvalidURI
+from httoop.exceptions import DecodeError, Invalid, InvalidBody, InvalidHeader, InvalidLine, InvalidURI
 from httoop.header import Headers
 from httoop.messages import Message
 from httoop.messages.request import Request
@@ -69,7 +69,10 @@ class StateMachine(object):
 
 	def on_body_complete(self) -> None:
 		self.message.body.seek(0)
-		self.message.body.decompress()
+		try:
+			self.message.body.decompress()
+		except DecodeError as exc:
+			raise BAD_REQUEST(Unicode(exc))
 		self.message.body.seek(0)
 		self.set_content_length()
 
